@@ -3,10 +3,10 @@
     Property theorems only.  Byte strings are [list N] with all elements
     below 256 ([bytes]); character strings are lists of character codes. *)
 From RsM Require Import Lib.MachInt Model.Headers Model.Codecs Model.CodecsSpec
-  Model.CodecsCheckin Model.CodecsBdx Model.CodecsBle Model.CodecsMdns
+  Model.CodecsCheckin Model.CodecsBdx Model.CodecsBle Model.CodecsMdns Model.CodecsCertExt
   Proofs.HeadersFacts Proofs.CodecsBase38 Proofs.CodecsManual Proofs.CodecsQr
   Proofs.CodecsSpecFacts Proofs.CodecsCheckinFacts Proofs.CodecsBdxFacts
-  Proofs.CodecsBleFacts Proofs.CodecsMdnsFacts.
+  Proofs.CodecsBleFacts Proofs.CodecsMdnsFacts Proofs.CodecsCertExtFacts.
 Open Scope N_scope.
 
 (** * Message header (PlainHdr) *)
@@ -428,6 +428,34 @@ Proof.
 Qed.
 Print Assumptions C17_mdns_instance_labels.
 
+(** * X.509 extension values of a converted Matter certificate *)
+
+Theorem C17_cert_eku_roundtrip : forall ids : list N,
+  eku_legal ids -> eku_read (eku_value ids) = Some ids.
+Proof. exact eku_roundtrip. Qed.
+Print Assumptions C17_cert_eku_roundtrip.
+
+Theorem C17_cert_eku_injective : forall a b : list N,
+  eku_legal a -> eku_legal b -> eku_value a = eku_value b -> a = b.
+Proof. exact eku_value_injective. Qed.
+Print Assumptions C17_cert_eku_injective.
+
+(** all nine key-usage bits in every combination: 512 values, enumerated *)
+Theorem C17_cert_key_usage_roundtrip : forall k : N,
+  k < 512 -> ku_read (ku_value k) = Some k.
+Proof. exact ku_roundtrip. Qed.
+Print Assumptions C17_cert_key_usage_roundtrip.
+
+Theorem C17_cert_basic_constraints_roundtrip : forall (ca : bool) (path : option N),
+  bc_read (bc_value ca path) = Some (ca, path).
+Proof. exact bc_roundtrip. Qed.
+Print Assumptions C17_cert_basic_constraints_roundtrip.
+
+Theorem C17_monitor_certext : forall (ku : N) (ids : list N) (ca : bool) (path : option N),
+  mon_certext ku ids ca path (ku_value ku) (eku_value ids) (bc_value ca path) = true.
+Proof. exact mon_certext_model. Qed.
+Print Assumptions C17_monitor_certext.
+
 (** * The monitors run on the implementation are implied by the theorems:
     the model's own answers always satisfy them *)
 
@@ -527,3 +555,9 @@ Proof. vm_compute. repeat split; reflexivity. Qed.
     check-in theorems are not vacuous *)
 Example C17_ex_aead_ideal : aead_ideal (fun c => le_bytes 13 c) toy_enc toy_dec.
 Proof. exact toy_aead_ideal. Qed.
+
+(** key purposes 1 and 6 (serverAuth, OCSPSigning): the value ends in the arcs 1 and 9 *)
+Example C17_ex_eku :
+  eku_value [1; 6] = [48; 20; 6; 8; 43; 6; 1; 5; 5; 7; 3; 1; 6; 8; 43; 6; 1; 5; 5; 7; 3; 9] /\
+  ku_value 97 = [3; 2; 1; 134] /\ bc_value true (Some 1) = [48; 6; 1; 1; 255; 2; 1; 1].
+Proof. vm_compute. repeat split; reflexivity. Qed.
